@@ -93,6 +93,30 @@ def window3Shape [Zero K] (a : Cube K) (S0 S1 : Int) : Except String (Cube K) :=
   | .pad T0 T1 => .ok (pad3 a T0 T1)
   | _ => .error "unmodelled"
 
+/-- NumPy basic slicing of a cube with two slices: `a[..., r0:r1, c0:c1]` (last two axes: every depth slice is cut on rows and columns) when
+`fromEnd`, `a[r0:r1, c0:c1]` (FIRST two axes: depth and rows, all columns) otherwise -/
+def viewSlice3 (fromEnd : Bool) (a : Cube K) (r0 r1 c0 c1 : Int) : Cube K :=
+  if fromEnd then
+    let b0 := sliceBound a.s0 r0; let e0 := sliceBound a.s0 r1
+    let b1 := sliceBound a.s1 c0; let e1 := sliceBound a.s1 c1
+    { d := a.d, s0 := if e0 < b0 then 0 else e0 - b0, s1 := if e1 < b1 then 0 else e1 - b1,
+      get := fun k i j => a.get k (b0 + i) (b1 + j) }
+  else
+    let b0 := sliceBound a.d r0; let e0 := sliceBound a.d r1
+    let b1 := sliceBound a.s0 c0; let e1 := sliceBound a.s0 c1
+    { d := if e0 < b0 then 0 else e0 - b0, s0 := if e1 < b1 then 0 else e1 - b1, s1 := a.s1,
+      get := fun k i j => a.get (b0 + k) (b1 + i) j }
+
+/-- `util.window(img, shape, slice)` on a cube `(depth, rows, cols)`: the generated decision tree, the view on the axes the source addresses
+(`Gen.windowSliceAxesFromEnd`), `lentil.pad`'s cube branch for `shape=` -/
+def window3 [Zero K] (a : Cube K) (shape : Option (Int × Int)) (slice : Option (Int × Int × Int × Int)) : Except String (Cube K) :=
+  match Gen.windowAct (a.d * a.s0 * a.s1) shape.isNone slice.isNone (shape.getD (0, 0)) (slice.getD (0, 0, 0, 0)) with
+  | .whole => .ok a
+  | .view r0 r1 c0 c1 => .ok (viewSlice3 Gen.windowSliceAxesFromEnd a r0 r1 c0 c1)
+  | .pad S0 S1 => .ok (pad3 a S0 S1)
+  | .refuse => .error "AssertionError"
+  | .fallthrough => .error "None"
+
 /-! ## `util.boundary`, `helper.boundary_slice`, `helper.slice_offset` -/
 
 /-- some index below `n` satisfies `p` (`np.any` along an axis) -/
